@@ -93,6 +93,11 @@ pub fn thread_index() -> u32 {
     thread_ids::index()
 }
 
+/// Makes the next `n` first sightings of threads allocation-free.
+pub fn reserve_thread_ids(n: usize) {
+    thread_ids::reserve(n);
+}
+
 #[cfg(not(feature = "loom"))]
 mod thread_ids {
     use std::sync::Mutex;
@@ -102,6 +107,10 @@ mod thread_ids {
 
     pub fn reset() {
         IDS.lock().unwrap_or_else(|e| e.into_inner()).clear();
+    }
+
+    pub fn reserve(n: usize) {
+        IDS.lock().unwrap_or_else(|e| e.into_inner()).reserve(n);
     }
 
     pub fn index() -> u32 {
@@ -124,6 +133,10 @@ mod thread_ids {
 
     pub fn reset() {
         IDS.lock().unwrap_or_else(|e| e.into_inner()).clear();
+    }
+
+    pub fn reserve(n: usize) {
+        IDS.lock().unwrap_or_else(|e| e.into_inner()).reserve(n);
     }
 
     pub fn index() -> u32 {
